@@ -57,6 +57,9 @@ class Knobs:
         self.p_pin = 0.15
         self.p_milestone = 0.15
         self.p_scen = 0.0
+        self.p_offstart = 0.3
+        self.offstart_aligned = False    # the offsets are multiples of every resolution of the knob set: also for aligned projects
+        self.start_offsets = [9 * 3600 + 20 * 60, 13 * 60, 30 * 60]   # time of day of an unaligned project start
         self.p_glen = 0.0            # a dependency without gapduration carries a gaplength (working-time gap)
         self.p_scen_date = 0.0      # scenario-specific start (ASAP) / end (ALAP) overrides, also on containers
         self.p_prec = 0.0
@@ -142,8 +145,8 @@ def gen_project(rng, k=None):
     if pick(rng, k.p_dst):
         dst_zone, start = rng.choice(DST_CASES)
         start = (start // D) * D
-    if not k.aligned_only and pick(rng, 0.3):
-        start += rng.choice([9 * H + 20 * 60, 13 * 60, 30 * 60])
+    if (not k.aligned_only or k.offstart_aligned) and pick(rng, k.p_offstart):
+        start += rng.choice(k.start_offsets)
     p = {"start": start, "dur": [rng.choice(k.dur_weeks), "w"], "G": G}
     if pick(rng, k.p_month):
         p["dur"] = [rng.choice([1, 1, 2]), "m"]       # `+1m`: the declared end depends on the calendar month
